@@ -2093,6 +2093,183 @@ def r9(cx):
     cx.floor(nreads, 7, 'reads of the character after `$`')
 
 
+# ---------------------------------------------------------------------------------------
+# added for seed C06-s8 (token_id looked the token's SOURCE text up in the keyword table)
+# Which words are reserved is decided - by the lexer when it classifies a token and by the printer when it decides whether a
+# simple command must be printed redirections-first - on ONE representation: the literal the word's units spell
+# (MaybeLiteral::to_string_if_literal of the Word: Some only when every unit is an unquoted literal character). The source text
+# is a different string for the same units (line continuations are only marked in the buffer, not removed; alias substitution
+# replaces it), so a lookup on it disagrees with the printer and with every re-parse of the printed text.
+_R10_MAYBE = re.compile(r'(^|::)MaybeLiteral(>)?::(to_string_if_literal|extend_literal)$')
+_R10_VIEW = ['*::Deref::deref', '*::DerefMut::deref_mut', '*::AsRef::as_ref', '*::Borrow::borrow', '*::Clone::clone', '*::ToOwned::to_owned',
+             '*::Into::into', '*::From::from',
+             re.compile(r'^alloc::string::String::(as_str|as_mut_str|into_boxed_str|into_string)$'),
+             re.compile(r'^alloc::str::<impl str>::(to_owned|to_string|into_string)$'),
+             re.compile(r'^core::(option::Option::<T>|result::Result::<T, E>)::(as_ref|as_mut|as_deref|as_deref_mut|unwrap|expect|unwrap_or_default|'
+                        r'unwrap_unchecked|cloned|copied|ok|ok_or|ok_or_else|take|inspect)$')] + Q.TRY_BRANCH
+_R10_WHOLE = (SYN + 'Word', '[' + SYN + 'WordUnit]', 'alloc::vec::Vec<' + SYN + 'WordUnit>', '[T]')
+
+
+def _r10_is_lookup(t):
+    """A call that turns text into a Keyword (str::parse::<Keyword>, <Keyword as FromStr>::from_str, TryFrom<&str>, a lookup
+    helper): result Result<Keyword, _> / Option<Keyword>, not an adaptor of Result / Option itself."""
+    dty = t.get('dty') or ''
+    if not (dty.startswith('core::result::Result<' + KW + ',') or dty == 'core::option::Option<' + KW + '>'):
+        return False
+    return not re.match(r'^<?core::(result::Result|option::Option)\b', t['f'].get('def') or t['f'].get('decl') or '')
+
+
+def _r10_sources(F, body, du, operand, depth=40, hops=2, seen=None):
+    """Where the text in `operand` comes from: leaves ('literal', what) | ('other', what, node) | ('unknown', what, node)."""
+    seen = set() if seen is None else seen
+    p = Q.operand_place(operand)
+    if p is None:
+        return [('other', 'the constant %s' % operand.get('c'), None)]
+    while depth > 0:
+        depth -= 1
+        for e in p.get('p') or []:
+            if isinstance(e, dict) and e.get('adt') == SYN + 'Word' and 'f' in e:
+                if e['f'] == 'units':
+                    return [('literal', 'the `units` of the word')]
+                return [('other', 'the field `%s` of the word' % e['f'], None)]
+        l = p['l']
+        if (body.fn, l) in seen:
+            return []
+        seen.add((body.fn, l))
+        defs = du.defs.get(l, [])
+        if not defs:
+            return _r10_from_caller(F, body, p, hops, seen)
+        # a buffer filled through an out-parameter: `let mut s = String::new(); word.extend_literal(&mut s)`
+        filled = []
+        for blk, t in body.calls():
+            for i, a in enumerate(t['a'][1:], 1):
+                org = du.origin(a)
+                if org['k'] == 'ref' and org['pl'].get('l') == l and not org['pl'].get('p') and org.get('mut'):
+                    filled.append(t)
+        if filled:
+            out = []
+            for t in filled:
+                if any(_R10_MAYBE.search(n) for n in Q.callee_names(t)):
+                    out.extend(_r10_literal_of(body, t))
+                else:
+                    out.append(('other', 'text written by %s' % H.short(t['f'].get('def') or t['f'].get('decl') or '?'), t))
+            return out
+        if len(defs) > 1:
+            out = []
+            for blk, idx, node in defs:
+                if idx == 't':
+                    out.extend(_r10_call(F, body, du, node, depth, hops, seen))
+                elif node['k'] == 'assign' and node['rv']['k'] in ('use', 'ref') and not node['lhs'].get('p'):
+                    src = node['rv']['o'] if node['rv']['k'] == 'use' else {'cp': node['rv']['pl']}
+                    out.extend(_r10_sources(F, body, du, src, depth, hops, seen))
+                else:
+                    out.append(('unknown', 'a value assembled in place', node))
+            return out
+        blk, idx, node = defs[0]
+        if idx == 't':
+            return _r10_call(F, body, du, node, depth, hops, seen)
+        if node['k'] != 'assign':
+            return [('unknown', 'a value assembled in place', node)]
+        rv = node['rv']
+        if rv['k'] == 'use':
+            p = Q.operand_place(rv['o'])
+            if p is None:
+                return [('other', 'the constant %s' % rv['o'].get('c'), node)]
+        elif rv['k'] == 'ref':
+            p = rv['pl']
+        elif rv['k'] == 'cast':
+            p = Q.operand_place(rv['o'])
+            if p is None:
+                return [('unknown', 'a cast', node)]
+        else:
+            return [('unknown', 'a value assembled in place (%s)' % rv['k'], node)]
+    return [('unknown', 'a chain too long to follow', None)]
+
+
+def _r10_literal_of(body, t):
+    """A MaybeLiteral call: the literal of the WHOLE word, or of a part of it."""
+    self_ty = (t['f'].get('self') or (t.get('at') or [''])[0]).lstrip('&').replace('mut ', '')
+    if self_ty in _R10_WHOLE:
+        return [('literal', 'MaybeLiteral::%s of the %s' % ((t['f'].get('decl') or '').split('::')[-1], self_ty.split('::')[-1]))]
+    return [('other', 'the literal of a %s, not of the whole word' % self_ty.split('::')[-1], t)]
+
+
+def _r10_call(F, body, du, t, depth, hops, seen):
+    if any(_R10_MAYBE.search(n) for n in Q.callee_names(t)):
+        return _r10_literal_of(body, t)
+    if Q.callee_is(t, _R10_VIEW) and t['a']:
+        return _r10_sources(F, body, du, t['a'][0], depth, hops, seen)
+    # iterator pipelines over the units (`word.units.iter().map(..).collect::<Option<String>>()`) keep the receiver as their source
+    name = t['f'].get('decl') or t['f'].get('def') or ''
+    if re.search(r'(^|::)(Iterator|IntoIterator|FromIterator)::\w+$|^core::slice::<impl \[T\]>::iter$|^core::iter::', name) and t['a']:
+        return _r10_sources(F, body, du, t['a'][0], depth, hops, seen)
+    return [('other', 'the result of %s' % H.short(t['f'].get('def') or t['f'].get('decl') or '?'), t)]
+
+
+def _r10_from_caller(F, body, p, hops, seen):
+    """The text is a parameter of the function (for a coroutine / closure: a captured variable): go to the callers."""
+    if hops <= 0:
+        return [('unknown', 'a parameter of %s' % body.fn, None)]
+    fn, idx = body.fn, p['l']
+    if body.fn != body.root:
+        # captured variable `_1.k` of the coroutine / closure built in the parent body
+        up = [e for e in p.get('p') or [] if isinstance(e, dict) and 'f' in e][:1]
+        parent = F.bodies.get(body.fn.rsplit('::', 1)[0])
+        if p['l'] != 1 or not up or parent is None:
+            return [('unknown', 'a parameter of the closure %s' % body.fn, None)]
+        k = int(up[0]['f'])
+        for _, _, s in parent.stmts():
+            if s['k'] == 'assign' and s['rv']['k'] == 'agg' and s['rv'].get('def') == body.fn and len(s['rv'].get('ops') or []) > k:
+                return _r10_sources(F, parent, Q.DefUse(parent), s['rv']['ops'][k], 40, hops, seen)
+        return [('unknown', 'a captured variable of %s' % body.fn, None)]
+    callers = F.callers_of(lambda names, t: fn in names)
+    if not callers or not (1 <= idx <= body.argc):
+        return [('unknown', 'a parameter of %s (no caller in the workspace)' % fn, None)]
+    out = []
+    for cb, blk, t in callers:
+        if len(t['a']) >= idx:
+            out.extend(_r10_sources(F, cb, Q.DefUse(cb), t['a'][idx - 1], 40, hops - 1, seen))
+    return out
+
+
+@RS.rule('C06.R10', 'K-TAINT', 'reserved words are recognised on the literal units of the word: wherever yash-syntax looks a word up in the keyword '
+         'table (the lexer classifying a token, the printer deciding "first word is a keyword"), the text is '
+         'MaybeLiteral::to_string_if_literal of the whole Word - never its source text')
+def r10(cx):
+    F = cx.F
+    # the unit-level literal really is a function of `units` alone
+    wl = '<' + SYN + 'Word as ' + SYN + 'conversions::MaybeLiteral>::extend_literal'
+    wh = F.hir_of(wl)
+    fields = {x.get('name') for x in H.walk(wh['body']) if x.get('k') == 'field' and x.get('adt') == SYN + 'Word'}
+    cx.require(fields == {'units'}, 'MaybeLiteral for Word reads %s, not only `units`' % sorted(fields))
+    cx.fn(wl)
+    sites = [(b, blk, t) for b, blk, t in F.callers_of(lambda names, t: _r10_is_lookup(t), crates=None)
+             if b.fn.startswith('yash_syntax::') and not b.fn.startswith(KW.rsplit('::', 1)[0] + '::')]
+    roles = {'lexer/parser': 0, 'printer': 0}
+    for b, blk, t in sorted(sites, key=lambda x: (x[0].fn, x[1])):
+        cx.fn(b.root)
+        role = 'lexer/parser' if b.fn.startswith('yash_syntax::parser::') else 'printer'
+        roles[role] += 1
+        text = [a for a, ty in zip(t['a'], t.get('at') or []) if re.match(r'^&?(mut )?(str|alloc::string::String)$', ty)]
+        cx.require(len(text) == 1, '%s: the keyword lookup at %s does not take one string' % (b.fn, b.loc(t)))
+        leaves = _r10_sources(F, b, Q.DefUse(b), text[0])
+        cx.site('%s (%s): text looked up in the keyword table comes from %s'
+                % (b.root.split('::')[-1], role, '; '.join(sorted({lf[1] for lf in leaves})) or 'nothing traceable'))
+        cx.require(leaves and not any(lf[0] == 'unknown' for lf in leaves),
+                   '%s: the text looked up in the keyword table at %s is not traceable (%s)'
+                   % (b.fn, b.loc(t), '; '.join(lf[1] for lf in leaves if lf[0] == 'unknown')))
+        bad = sorted({lf[1] for lf in leaves if lf[0] == 'other'})
+        if bad:
+            cx.violation(b.root, 'keyword-lookup-not-on-literal-units',
+                         '%s decides "is this word a reserved word" on %s instead of the literal its units spell '
+                         '(Word::to_string_if_literal): the two differ for the same units - a line continuation inside or right after the '
+                         'word (`i\\<newline>f`, `!\\<newline> true`) stays in the source text but not in the units - so the lexer and the '
+                         'printer (first_word_is_keyword, Display) disagree: `!\\<newline> true` becomes the simple command `! true`, whose '
+                         'printed text re-parses as a negated pipeline' % (b.root.split('::')[-1], ', '.join(bad)), loc=b.loc(t))
+    cx.floor(roles['lexer/parser'], 1, 'keyword lookups in the lexer/parser')
+    cx.floor(roles['printer'], 1, 'keyword lookups in the printer (first_word_is_keyword)')
+
+
 RS.rules.sort(key=lambda r: r.id)
 
 
